@@ -163,3 +163,64 @@ Proof.
   { unfold seq. destruct (Nat.ltb_spec 1 n); lia. }
   change 1 with (Z.of_nat 1). rewrite e2e_sentences_from by (auto; fold n; lia). apply Permutation_refl.
 Qed.
+
+(* ================================================================================================ *)
+(* Part B: the decoder accepts what the encoder emits                                                *)
+
+Lemma mmap_snd_ok : forall (A B : Type) (m : M (A * B)) (y : B), mmap snd m = Ok y -> exists x, m = Ok (x, y).
+Proof. intros A B [[x y']|e] y H; [|discriminate]. cbn in H. injection H as ->. exists x. reflexivity. Qed.
+
+(* armoring + framing + the decoder entry point, for every bit string of 1..1800 bits (300 characters = five fragments
+   of 60; the longest AIS message has 1064 bits): the encoder model succeeds, its sentences are a carrier of the armored
+   payload, and decode( *sentences ) is exactly what the payload decoder makes of the bits that were encoded --
+   the same message, or the same exception when the bits are no decodable message. *)
+Theorem accepted_by_decoder : forall (b : bits) (talker chan : list Z),
+  valid_talker talker -> valid_channel chan -> (1 <= length b <= 1800)%nat ->
+  exists p fill ss,
+    encode_ascii_6 b = Ok (p, fill) /\
+    ais_to_nmea_0183 p talker chan (Z.of_nat fill) = Ok ss /\
+    is_carrier p fill ss /\
+    mmap snd (decode_api false ss) = decode_bits b.
+Proof.
+  intros b talker chan Ht Hc Hlen.
+  destruct (FrameArmorProofs.armor_roundtrip b) as (p & fill & He & Hfill & _ & Harm & Hplen & Hdec).
+  assert (Hf : (fill <= 5)%nat).
+  { assert (Z.of_nat fill <= 5); [|lia]. rewrite Hfill. unfold fs_padding_to_six.
+    pose proof (Z.mod_pos_bound (6 - Z.of_nat (length b) mod 6) 6). lia. }
+  assert (Hpl : (1 <= length p <= 300)%nat).
+  { assert (1 <= Z.of_nat (length p) <= 300); [|lia]. rewrite Hplen. split; [apply Z.div_le_lower_bound; lia|].
+    apply Z.lt_succ_r. apply Z.div_lt_upper_bound; lia. }
+  destruct (frame_is_carrier p talker chan fill Ht Hc Harm Hpl Hf) as (ss & Hss & Hcar).
+  exists p, fill, ss. split; [exact He|]. split; [exact Hss|]. split; [exact Hcar|].
+  apply (carrier_vs_bits p fill ss b); try assumption.
+  - intros ->. cbn in Hpl. lia.
+  - apply armored_is_armor. exact Harm.
+Qed.
+
+(* the same for the two entry points: encode_msg of a message whose to_bitarray() gives 1..1800 bits *)
+Theorem encode_msg_accepted : forall (c : cls) (vs : list value) (b : bits) (talker chan : list Z),
+  valid_talker talker -> valid_channel chan -> to_bitarray c vs = Ok b -> (1 <= length b <= 1800)%nat ->
+  exists ss, encode_msg (c, vs) talker chan = Ok ss /\ mmap snd (decode_api false ss) = decode_bits b.
+Proof.
+  intros c vs b talker chan Ht Hc Hb Hlen.
+  destruct (accepted_by_decoder b talker chan Ht Hc Hlen) as (p & fill & ss & He & Hss & _ & Hd).
+  exists ss. split; [|exact Hd].
+  unfold encode_msg. rewrite check_talker_channel_ok by assumption. cbn [bind fst snd].
+  unfold encode_msg_payload. rewrite Hb. cbn [bind]. rewrite He. cbn [bind]. exact Hss.
+Qed.
+
+(* ... and encode_dict of a dictionary from which get_ais_type finds a type and create() builds such a message;
+   the sentences are those of encode_msg *)
+Theorem encode_dict_accepted : forall (data : list (string * value)) (t : Z) (c : cls) (vs : list value) (b : bits)
+                                      (talker chan : list Z),
+  valid_talker talker -> valid_channel chan ->
+  get_ais_type data = Ok t -> create_msg t data = Ok (c, vs) -> to_bitarray c vs = Ok b -> (1 <= length b <= 1800)%nat ->
+  exists ss, encode_dict data talker chan = Ok ss /\ encode_msg (c, vs) talker chan = Ok ss /\
+             mmap snd (decode_api false ss) = decode_bits b.
+Proof.
+  intros data t c vs b talker chan Ht Hc Hty Hcr Hb Hlen.
+  destruct (encode_msg_accepted c vs b talker chan Ht Hc Hb Hlen) as (ss & Hss & Hd).
+  exists ss. split; [|split; assumption].
+  unfold encode_dict. unfold encode_msg in Hss. rewrite check_talker_channel_ok in * by assumption. cbn [bind] in *.
+  rewrite Hty. cbn [bind]. unfold data_to_payload. rewrite Hcr. cbn [try_except bind]. exact Hss.
+Qed.
